@@ -346,6 +346,44 @@ struct HSkip {
     generation: String,
     x_last: String,
 }
+/// A header type without data: its members are unit markers that serialise to constants
+/// (`cache-control: no-store`, `x-mark: on`).  The value is zero-sized; its headers are
+/// declared all the same.
+struct NoStore;
+impl Serialize for NoStore {
+    fn serialize<S: serde::Serializer>(&self, s: S) -> Result<S::Ok, S::Error> {
+        s.serialize_str("no-store")
+    }
+}
+struct MarkOn;
+impl Serialize for MarkOn {
+    fn serialize<S: serde::Serializer>(&self, s: S) -> Result<S::Ok, S::Error> {
+        s.serialize_str("on")
+    }
+}
+macro_rules! string_schema {
+    ($t:ty) => {
+        impl JsonSchema for $t {
+            fn schema_name() -> String {
+                "String".to_string()
+            }
+            fn is_referenceable() -> bool {
+                false
+            }
+            fn json_schema(g: &mut schemars::gen::SchemaGenerator) -> schemars::schema::Schema {
+                g.subschema_for::<String>()
+            }
+        }
+    };
+}
+string_schema!(NoStore);
+string_schema!(MarkOn);
+#[derive(Serialize, JsonSchema)]
+struct HZst {
+    #[serde(rename = "cache-control")]
+    cache_control: NoStore,
+    x_mark: MarkOn,
+}
 #[derive(Serialize, JsonSchema)]
 struct HBadName {
     #[serde(rename = "bad name")]
@@ -379,6 +417,7 @@ fn decl_fields(d: &Decl) -> Vec<(&'static str, Option<String>)> {
         "hopt" => vec![("x_one", None)],
         "hbad" => vec![("bad name", v(0))],
         "horder" => vec![("zz", v(0)), ("aa", v(1)), ("Mm", v(2))],
+        "hzst" => vec![("cache-control", Some("no-store".to_string())), ("x_mark", Some("on".to_string()))],
         "hskip" => {
             // vals[1] decides which of the two optional members is present (empty = left out)
             let (tag, gen) = skip_members(d);
@@ -431,6 +470,7 @@ fn with_headers<T: HttpCodedResponse>(body: T, d: &Decl, ops: &[Op]) -> Result<h
         "hopt" => go!(HOpt { x_one: Some(s(0)) }),
         "hbad" => go!(HBadName { a: s(0) }),
         "horder" => go!(HOrder { zz: s(0), aa: s(1), mm: s(2) }),
+        "hzst" => go!(HZst { cache_control: NoStore, x_mark: MarkOn }),
         "hskip" => {
             let (tag, generation) = skip_members(d);
             go!(HSkip { x_one: s(0), tag, generation, x_last: s(2) })
@@ -521,7 +561,7 @@ fn fmt_result(r: Result<hyper::Response<dropshot::Body>, HttpError>, json_body: 
 }
 
 const KINDS: &[&str] = &["ok", "created", "accepted", "deleted", "updated"];
-const SHAPES: &[&str] = &["none", "h1", "h2", "hcase", "hct", "hnum", "hopt", "hbad", "horder", "hskip"];
+const SHAPES: &[&str] = &["none", "h1", "h2", "hcase", "hct", "hnum", "hopt", "hbad", "horder", "hskip", "hzst"];
 
 fn tr_case(out: &mut Out, id: &mut u64, kind: &str, wrapped: bool, body: &BodyVal, d: &Decl, ops: &[Op]) {
     let json_kind = matches!(kind, "ok" | "created" | "accepted");
@@ -608,7 +648,8 @@ fn tr_stream(out: &mut Out, id: &mut u64, rng: &mut Rng, thorough: bool) {
             _ => BodyVal::Val(gen_value(rng, 3)),
         };
         // weight the shapes that succeed
-        let shape = match rng.below(17) {
+        let shape = match rng.below(19) {
+            17 | 18 => "hzst",
             14..=16 => "hskip",
             0 => "hnum",
             1 => "hopt",
